@@ -33,13 +33,16 @@ def cfgs(draw, not_eq=None, simple=False):
     return c
 
 
+BIG = [False]  # generator mode: larger sizes (long strings, long value lists, many detections)
+
+
 def str_values(profile: str, wild: bool = True):
     alpha = ["a", "B", "x", "1", " ", "-", "/", ".", "\\", '"', "'", ":", "^", "%", "_", "é"]
     if wild:
         alpha += ["*", "*", "?", "\\*", "\\?", "\\\\"]
     if profile == "sq":
         alpha += ["&"]
-    return st.lists(st.sampled_from(alpha), min_size=0, max_size=6).map("".join)
+    return st.lists(st.sampled_from(alpha), min_size=0, max_size=70 if BIG[0] else 6).map("".join)
 
 
 REGEXES = ["a.*b", "^a", "b$", "a/b", "\\d+", "a|b", "(x)+y", "^a.*b$", "\\\\", ".*", "a\\.b", "[a-z]{2}", "a b", "é", "x/y\\/z"]
@@ -60,7 +63,7 @@ def items(draw, cfg, fields):
         chain = draw(st.sampled_from([[], [], ["contains"], ["startswith"], ["endswith"], ["cased"],
                                       ["contains", "cased"], ["endswith", "cased"], ["startswith", "cased"]]))
         if kind == "strlist":
-            value = draw(st.lists(str_values(prof), min_size=1, max_size=3))
+            value = draw(st.lists(str_values(prof), min_size=1, max_size=40 if BIG[0] else 3))
             if draw(st.booleans()):
                 chain = chain + ["all"] if "cased" not in chain else ["all"] + chain
         else:
@@ -68,7 +71,7 @@ def items(draw, cfg, fields):
     elif kind == "num":
         value = draw(st.one_of(st.integers(-5, 300), st.sampled_from([1.5, -0.25, 0, 10 ** 12])))
     elif kind == "numlist":
-        value = draw(st.lists(st.integers(0, 20), min_size=1, max_size=3))
+        value = draw(st.lists(st.integers(0, 2000 if BIG[0] else 20), min_size=1, max_size=40 if BIG[0] else 3))
         chain = draw(st.sampled_from([[], ["all"]]))
     elif kind == "mixedlist":
         value = draw(st.lists(st.one_of(st.integers(0, 9), str_values(prof), st.none()), min_size=1, max_size=3))
@@ -123,12 +126,12 @@ def detections(draw, cfg, fields):
     shape = draw(st.sampled_from(["map", "map", "map", "listmap", "kwlist", "kw"]))
     prof = cfg["str_profile"]
     if shape == "map":
-        its = draw(st.lists(items(cfg, fields), min_size=1, max_size=3))
+        its = draw(st.lists(items(cfg, fields), min_size=1, max_size=8 if BIG[0] else 3))
         return dict(its)
     if shape == "listmap":
         return [dict(draw(st.lists(items(cfg, fields), min_size=1, max_size=2))) for _ in range(draw(st.integers(2, 3)))]
     if shape == "kwlist":
-        return draw(st.lists(st.one_of(str_values(prof), st.integers(0, 99)), min_size=1, max_size=3))
+        return draw(st.lists(st.one_of(str_values(prof), st.integers(0, 99)), min_size=1, max_size=30 if BIG[0] else 3))
     return draw(st.one_of(str_values(prof), st.integers(0, 99)))
 
 
@@ -155,10 +158,12 @@ def condition_exprs(names: list[str], max_leaves: int = 6):
 @st.composite
 def rule_docs(draw, cfg, max_dets: int = 4):
     fields = BARE_FIELDS if cfg["field_profile"] == "bare" else QUOTED_FIELDS
+    if BIG[0]:
+        max_dets = len(DET_NAMES)
     n = draw(st.integers(1, max_dets))
     names = draw(st.lists(st.sampled_from(DET_NAMES), min_size=n, max_size=n, unique=True))
     det = {name: draw(detections(cfg, fields)) for name in names}
     nconds = 1 if draw(st.integers(0, 4)) else 2
-    conds = [draw(condition_exprs(names)) for _ in range(nconds)]
+    conds = [draw(condition_exprs(names, max_leaves=20 if BIG[0] else 6)) for _ in range(nconds)]
     det["condition"] = conds[0] if nconds == 1 else conds
     return {"title": "t", "logsource": {"category": "test", "product": "p"}, "detection": det}
